@@ -514,11 +514,14 @@ class TableV:
     """abstract unique table: RefCell<FxHashMap<BDD, Rc<BDD>>> contents.
     Representation invariant I: every entry maps a key to an Rc whose content is structurally equal to the key, and
     the two leaves are present.  `get` may hit or miss (fresh Bool) except for leaves (always hit)."""
-    __slots__ = ('tag',)
+    __slots__ = ('tag', 'leaves', 'lenv', 'swept')
     cells = EMPTY
 
-    def __init__(self, tag='table'):
+    def __init__(self, tag='table', leaves=(True, True)):
         self.tag = tag
+        self.leaves = leaves        # guards: the False / the True leaf is (still) an entry.  Both True under the
+        self.lenv = None            # invariant; code that removes entries (retain / clear / remove) may falsify them
+        self.swept = None           # id of the predicate the table was last swept with (no insert since)
 
 
 class MapV:
@@ -714,7 +717,9 @@ def merge(c, a, b, ctx=None):
     if ta is AddrV:
         return AddrV(merge(c, a.inner, b.inner, ctx))
     if ta is TableV:
-        return a
+        if a.leaves == b.leaves or (a.leaves[0] is b.leaves[0] and a.leaves[1] is b.leaves[1]):
+            return a
+        return TableV(a.tag, (gite(c, a.leaves[0], b.leaves[0]), gite(c, a.leaves[1], b.leaves[1])))
     if ta is MapV:
         ia, ib = a.items, b.items
         n = 0
